@@ -64,6 +64,7 @@ def lex_facts(inst):
     lower = {}
     stripped = {}
     hascomma = {}
+    hasangle = {}
 
     def walk(items):
         for d in items:
@@ -71,10 +72,12 @@ def lex_facts(inst):
                 lower[d["name"]] = d["name"].lower()
                 stripped[d["cpp"]] = re.sub("[,:<> ]", "", d["cpp"])
                 hascomma[d["cpp"]] = "," in d["cpp"]
+                hasangle[d["cpp"]] = "<" in d["cpp"]
             elif d.get("k") == "namespace":
                 walk(d["items"])
     walk(inst)
-    return {"lower": lower or {"_": "_"}, "stripped": stripped or {"_": "_"}, "hascomma": hascomma or {"_": False}}
+    return {"lower": lower or {"_": "_"}, "stripped": stripped or {"_": "_"}, "hascomma": hascomma or {"_": False},
+            "hasangle": hasangle or {"_": False}}
 
 
 def typedef_of_non_template(tree):
